@@ -36,7 +36,7 @@ CHECKS["C09"] = ("abstract interpretation of the full-grid array builder, len an
 CHECKS["C02"] = ("abstract interpretation of FullGrid._get_N_N / get_total_volumes over the abstract grid object (symbolic sizes and factor): aligned emission lists with row/column index polynomials (LAYOUT/MIRROR), factor power per family (DEG), periodic block list identity, plus FOLD/TRUTH rules on the antipodal fold of the rotation block",
     "Composition of the full-grid adjacency/border/distance matrices and of the 6D volumes from position and rotation geometry is derived symbolically for all sizes (n_b>=4 and n_b=1) and compared with the property: index maps, stored values, factor powers, block placement, shapes, cell order; the rotation block must be the folded half-sphere matrix whose antipode map is total. Positivity/finiteness and the value-dependent `if el:` filter are not decided.", "6 C02")
 
-CHECKS["C03"] = ("abstract interpretation of AbstractVoronoi._calculate_N_N_array for symbolic N (mirrored emission, guard independent of the property, threshold dim-1), of the pair functions and of the cell-model dispatch / exact-area default",
+CHECKS["C03"] = ("abstract interpretation of AbstractVoronoi._calculate_N_N_array for symbolic N (mirrored emission, guard independent of the property, threshold dim-1, no additional emission condition incl. `continue` paths), of the pair functions and of the cell-model dispatch / exact-area default",
     "Structural clauses only: symmetry, empty diagonal and one common pattern of the three pairwise matrices by construction, adjacency threshold, which function computes distance and border from which arguments, N>=4 -> exact model, default areas from SphericalVoronoi.calculate_areas. That scipy's regions are the true tessellation and all arc/area values are not decided.", "6 C03")
 CHECKS["C04"] = ("FOLD/TRUTH rules on the antipodal fold (index array in Boolean context, value-copying fold, one index list), abstract interpretation of the full-sphere pairwise matrices (4D), interval/RANGE rule on distance_between_quaternions, LAYOUT of the double cover, forwarding resolution of the public getters",
     "Structural clauses: antipode map total incl. index 0, value-copying fold, single ascending index list, symmetric full-sphere matrices on one pattern, threshold 3 shared vertices, quaternion distance in [0,pi/2] (switch exactly pi/2), double cover [G;-G], getters reach the folded implementation. Which cells share a 2-face and the face areas are not decided.", "6 C04")
@@ -45,7 +45,7 @@ CHECKS["C15"] = ("abstract interpretation of the volume estimators (equal-share 
 
 CHECKS["C08"] = ("reseed-dominance analysis (call-graph fixpoint of drawing functions + CFG dominators), getter-purity classification of attribute stores (IDEMP), who-may-write / prefix rules on the polytope index (OWN/ORD), hash-container iteration and mutable-default scans",
     "Structural clauses: every random draw on grid/geometry paths is dominated by a constant reseed (independence of history and of the global generator state), getters are pure/init-once/idempotent, permanent indices are written once and get_nodes(N) is a prefix, caches are validated by node count, no hash-randomised order reaches results. Bit-identity of scipy/qhull across processes is trusted, not decided.", "6 C08")
-CHECKS["C18"] = ("who-may-write (OWN) and ordering (ORD) rules over polytopes.py, reseed dominance of the index shuffle",
+CHECKS["C18"] = ("who-may-write (OWN) and ordering (ORD) rules over polytopes.py, reseed dominance of the index shuffle, constant-resolved tolerance rule on the edge-length test (FLOATTOL), unfiltered second-neighbour walk (CANDIDATES)",
     "Index permanence and level ordering for all levels and histories, projection = normalised node at the only node-adding site, prefix property of get_nodes, index-ordered half-hypercube selection, deterministic shuffle. Equality with the ideal lattice, negation closure and antipodal uniqueness are numerical and not decided.", "6 C18")
 
 CHECKS["C10"] = ("syntax-directed dataflow over the frame loop (per-iteration reset dominance), inversion-parity count on the rotation chain, sibling agreement of selection strings and quaternion constructors, ordering of frame collection, writer wiring",
@@ -57,7 +57,7 @@ CHECKS["C11"] = ("abstract interpretation of AssignmentTool's composition and se
 CHECKS["C20"] = ("writer/reader pairing analysis (PAIRIO) over molgri/io.py and the run_grid Snakefile rule (front end parses the rule into ASTs), constant/keyword check of the xvg reader against the property's header grammar",
     "Structural clauses: each artefact is saved with the matching saver from the direct getter result and loaded with the matching loader; xvg reader constants (skiprows=13, comment '@', no header row, legends s0..s9 in order, names passed on, single column by name, csv index_col=0). Value-exactness of numpy/scipy/pandas serialisation is trusted.", "6 C20")
 
-CHECKS["C14"] = ("label-flow analysis (FLOW) across getters, saved files, Snakefile rule outputs/inputs (rules.X.output.Y resolved by the front end), loaders and SQRA keyword arguments; config-key-to-grid-role tracing at every FullGrid construction; transpose parity and order/pairing rules on DecompositionTool; inherited FOLD/TRUTH rules",
+CHECKS["C14"] = ("label-flow analysis (FLOW) across getters, saved files, Snakefile rule outputs/inputs (rules.X.output.Y resolved by the front end), loaders and SQRA keyword arguments; config-key-to-grid-role tracing at every FullGrid construction; transpose parity and order/pairing rules on DecompositionTool; inherited FOLD/TRUTH rules, inherited SQRA kernel obligations (C01, coo form) and position-grid symmetry obligations (C05)",
     "Wiring (borders->S, distances->h, volumes->V; config keys -> grid roles), one assembly routine for S and h, left eigenvectors via one transpose, descending sort applied to eigenvalues and eigenvector columns alike, decomposition rule wiring, folded rotation block (F1). ARPACK convergence/accuracy is not decided.", "6 C14")
 
 NOT_APPLICABLE = {
@@ -86,7 +86,9 @@ def main():
                                   "the modelled vocabulary give exit 2 (ANALYSIS-ERROR), never a violation.",
                                   "design_ref": f"DESIGN.md section {ref}"},
                 "level_note": NOTE,
-                "technique": "static analysis: " + tech,
+                "technique": "static analysis: " + tech + "; plus the common memo-soundness (CACHE) and may-alias / in-place-mutation "
+                             "(ALIAS) analyses over the package; thorough tier re-runs the analysis on catalogued single-edit scratch "
+                             "variants of the current tree (must-fire / must-stay-silent sentinels) and on larger size contexts",
             })
         elif pid in NOT_APPLICABLE:
             na.append({"property_id": pid, "reason": NOT_APPLICABLE[pid]})
